@@ -53,6 +53,7 @@ func runGenDump(cfg Config, args []string) int {
 	case prop == "C07" && r.Intn(100) < 15:
 		kind = "noerr"
 	}
+	kind = envOr("VERIF_KIND", kind)
 	w, m := gensim.Gen(r, kind)
 	dir := envOr("VERIF_DUMPDIR", "/tmp/gendump")
 	os.RemoveAll(dir)
